@@ -154,8 +154,11 @@ def to_number(value: JSValue) -> Union[int, float]:
             return float("-inf") if s.startswith("-") else float("inf")
         if "." in s or "e" in s or "E" in s:
             return float(s)
+        n = int(s)
+        if n == 0 and s.startswith("-"):
+            return -0.0  # "-0": a host int has no negative zero
         # Integers beyond 2**53 are rounded to a double, beyond its range infinite
-        return js_number(int(s))
+        return js_number(n)
     # TODO: Handle objects with valueOf
     return float("nan")
 
